@@ -1,17 +1,120 @@
 package main
 
 import (
+	"flag"
 	"fmt"
-
-	"cosmossdk.io/log"
-	dbm "github.com/cosmos/cosmos-db"
-	"github.com/cosmos/cosmos-sdk/baseapp"
-	simtestutil "github.com/cosmos/cosmos-sdk/testutil/sims"
-
-	"github.com/noble-assets/orbiter/v2/simapp"
+	"os"
+	"sort"
+	"time"
 )
 
+func usage() {
+	fmt.Println("usage: orbsim check|worker|replay|run [flags]")
+	os.Exit(2)
+}
+
 func main() {
-	app, err := simapp.NewSimApp(log.NewNopLogger(), dbm.NewMemDB(), nil, true, simtestutil.EmptyAppOptions{}, baseapp.SetChainID("noble-sim"))
-	fmt.Println(app != nil, err)
+	if len(os.Args) < 2 {
+		usage()
+	}
+	cmd := os.Args[1]
+	fs := flag.NewFlagSet(cmd, flag.ExitOnError)
+	var (
+		prop    = fs.String("prop", "C12", "property id")
+		tier    = fs.String("tier", "quick", "quick|thorough")
+		seed    = fs.Uint64("seed", 1, "seed")
+		runs    = fs.Int("runs", 1, "number of runs (run)")
+		worker  = fs.Int("worker", 0, "worker index")
+		out     = fs.String("out", "", "worker report path")
+		file    = fs.String("file", "", "replay file")
+		verbose = fs.Bool("v", false, "verbose")
+	)
+	fs.Parse(os.Args[2:])
+	if t := os.Getenv("VERIF_TIER"); t != "" && cmd == "check" {
+		*tier = t
+	}
+	switch cmd {
+	case "check":
+		os.Exit(checkMain(*prop, *tier))
+	case "worker":
+		os.Exit(workerMain(*prop, *tier, *worker, *seed, *out))
+	case "replay":
+		os.Exit(replayMain(*file, *verbose))
+	case "run":
+		os.Exit(runMain(*prop, *seed, *runs, *verbose))
+	default:
+		usage()
+	}
+}
+
+// runMain: developer entry point — a batch of runs in one process, printing every violation.
+func runMain(prop string, seed uint64, runs int, verbose bool) int {
+	prof := profileFor(prop)
+	t0 := time.Now()
+	tot := newRunStats()
+	nv := 0
+	keys := map[string]int{}
+	for i := 0; i < runs; i++ {
+		res := runOne(prof, seed+uint64(i))
+		if verbose {
+			for _, l := range res.Log {
+				fmt.Println(l)
+			}
+		}
+		if res.HarnessErr != "" {
+			fmt.Println("HARNESS ERROR seed", res.Seed, res.HarnessErr)
+			for _, l := range tail(res.Log, 15) {
+				fmt.Println("   ", l)
+			}
+			return 2
+		}
+		for _, v := range res.Viol {
+			nv++
+			if keys[v.Key()] == 0 {
+				fmt.Printf("seed %d: %s %s [%s] %.400s\n", res.Seed, v.Prop, v.Rule, v.FP, v.Detail)
+			}
+			keys[v.Key()]++
+		}
+		for k, v := range res.Stats.Counts {
+			tot.Counts[k] += v
+		}
+		for k, v := range res.Stats.Faults {
+			tot.Faults[k] += v
+		}
+		for k, v := range res.Stats.Probes {
+			tot.Probes[k] += v
+		}
+		for k := range res.Stats.States {
+			tot.States[k] = true
+		}
+		for k := range res.Stats.Grams {
+			tot.Grams[k] = true
+		}
+		tot.Blocks += res.Stats.Blocks
+		tot.Txs += res.Stats.Txs
+	}
+	fmt.Println("runs", runs, "violations", nv, "time", time.Since(t0), "blocks", tot.Blocks, "txs", tot.Txs, "states", len(tot.States), "grams", len(tot.Grams))
+	pm := func(name string, m map[string]int) {
+		ks := make([]string, 0, len(m))
+		for k := range m {
+			ks = append(ks, k)
+		}
+		sort.Strings(ks)
+		fmt.Println(name + ":")
+		for _, k := range ks {
+			fmt.Printf("  %-70s %d\n", k, m[k])
+		}
+	}
+	pm("violation keys", keys)
+	pm("counts", tot.Counts)
+	pm("faults", tot.Faults)
+	pm("probes", tot.Probes)
+	return 0
+}
+
+func tail(xs []string, n int) []string {
+	if len(xs) > n {
+		return xs[len(xs)-n:]
+	}
+	return xs
 }
